@@ -1015,6 +1015,7 @@ func Describe(run *vlib.Run) {
 		"Concurrent leg (every 16th case index in c18; all cases of package c18conc, which is built with -race): 8 clients x 2 requests at the same time on ONE schema (HTTP handler / in-process alternating), each request with its own value and transport of the same args type (in c18: generated shapes, two thirds starting with a TextUnmarshaler field, and every other concurrent case a compile-time struct; in c18conc: only the 8 compile-time args structs CA1..CA8 served by ordinary closures, no reflect.StructOf / reflect.MakeFunc; long texts and an UnmarshalText with a scheduling point); each answer must be the digest of the value that request sent. " +
 		"Paginated leg (every 4th case): Paginated field funcs with their own arguments in both forms (args struct next to first/after/..., and args struct embedding schemabuilder.PaginationArgs) with pointer / `,optional` arguments; request sequences on one schema: valid; invalid because one required custom argument has the wrong kind while every optional argument is given; valid with the optional arguments left out (must arrive nil / zero); half of the cases one request at a time (HTTP handler / in process), half with 4 clients sending (invalid, valid) pairs at the same time. " +
 		"Many-lists leg (every 16th case): graphql.MaxQueryNesting (public knob) is set to 250 for the run; documents only a few levels deep but containing more list literals than that limit (one [][]int64 literal with 260-385 rows, or 90+ aliased selections each carrying list literals) and the same values through variables; every selection's answer must be the digest of its value. " +
+		"Websocket leg (every 64th case): one graphql.ServeJSONSocket connection over a socket whose messages are JSON bytes receives 3-6 subscribe / mutate messages that declare the same variables (one per argument); the first supplies all of them, later ones supply some, rely on declared defaults for others and leave the rest undefined, with the variables member present / empty / null / missing; each message must be answered from its own variables (default used, optional nil / zero). " +
 		"Non-trivial = at least 2 of {list, nested input object, pointer/optional tag, named scalar/enum/bytes/time/text, a default transport carried a value}; distinct = args type signature + mutation class.")
 	run.Assume("graphql-go's lexer/parser (third party) reads GraphQL literals as written by gqlQuote / strconv")
 	run.Assume("variables reach graphql.Parse as json.Unmarshal output (map[string]interface{} with float64 numbers), as in graphql/http.go and graphql/server.go")
